@@ -393,6 +393,12 @@ def apply_op(soup, sc, op):
     if kind == "smooth":
         soup.smooth()
         return True
+    if kind == "rename":
+        t = node(op[1])
+        if not is_tag(t) or t is soup:
+            return False
+        t.name = op[2]      # what the element counts as text was fixed when it was constructed: unchanged
+        return True
     raise ValueError(f"unknown op {op!r}")
 
 
@@ -441,8 +447,10 @@ def gen_op(r, soup, label):
         return ("wrap", ni, r.choice(tagnames))
     if k < 0.99:
         return ("unwrap", ti)
-    if k < 0.995:
+    if k < 0.992:
         return ("clear", ti)
+    if k < 0.997:
+        return ("rename", ti, r.choice(tagnames))
     return ("smooth",)
 
 
@@ -454,12 +462,38 @@ def build(recipe):
     for t in all_nodes(soup):
         if is_tag(t):
             set_exp(t, expected_interesting(sc, t.name))
-    for op in recipe.get("ops", []):
+    warm = recipe.get("warm")
+    for i, op in enumerate(recipe.get("ops", [])):
+        if warm is not None and i == warm:
+            warm_up(soup)
         apply_op(soup, sc, tuple(op))
     post = recipe.get("post")
     if post:
         soup = apply_post(soup, post, sc)
     return soup, sc
+
+
+def copied_soup_config_failures(cl, sc):
+    """a copy of a BeautifulSoup object shares its builder: new_tag() on the copy follows the same string_containers"""
+    c = E()["cls"]
+    bad = []
+    for nm in sorted(set(list(sc) + list(PROP_CONTAINERS) + ["p", "b"])):
+        got = int_tok_of_value(cl.new_tag(nm).interesting_string_types)
+        want = int_tok_of_value({c[n] for n in expected_interesting(sc, nm)[1]})
+        if got != want:
+            bad.append((nm, got, want))
+    return bad
+
+
+def warm_up(soup):
+    """every observable on every node BEFORE further edits: whatever an implementation remembers from these calls must not
+    show in the answers after the edits"""
+    for n in all_nodes(soup):
+        try:
+            n.text, list(n.strings), list(n.stripped_strings), n.string
+            n.get_text("|"), n.get_text("|", True), n.get_text("", False, None), n.get_text(" ", True, None)
+        except Exception:
+            pass
 
 
 def apply_post(soup, post, sc):
@@ -687,6 +721,11 @@ def rand_tspec(r, present):
     return ("many", kind, cl)
 
 
+class IterAsTuple(Exception):
+    """a one-shot iterator passed as `types` was honoured like a tuple: the documented meaning, not today's behaviour
+    (which consumes the iterator) — either is accepted; such a query is not compared with the model"""
+
+
 def run_query(receiver, q):
     """-> (canonical reply of the real code, canonical reply of the oracle, identity_ok)"""
     e = E()
@@ -719,7 +758,13 @@ def run_query(receiver, q):
         elif tspec[0] != "d":
             kw["types"] = types_value(tspec)
         got = list(receiver._all_strings(strip, **kw))
-        want = o_iter_strings(receiver, bool(strip), tspec[2]) if tspec[0] == "iter" else o_all_strings(receiver, bool(strip), norm_tspec(tspec))
+        if tspec[0] == "iter":
+            want = o_iter_strings(receiver, bool(strip), tspec[2])
+            alt = o_all_strings(receiver, bool(strip), ("many", "tuple", tspec[2]))
+            if show_pieces(got) != show_pieces([w[1] for w in want]) and show_pieces(got) == show_pieces([w[1] for w in alt]):
+                raise IterAsTuple()
+        else:
+            want = o_all_strings(receiver, bool(strip), norm_tspec(tspec))
         if not strip:
             ident = len(got) == len(want) and all(a is b[0] for a, b in zip(got, want))
         return show_pieces(got), show_pieces([w[1] for w in want]), ident
@@ -736,7 +781,13 @@ def run_query(receiver, q):
             got = receiver.getText(sep, strip, **kw)
         else:
             got = receiver.get_text(sep, strip, **kw)
-        pieces_ = o_iter_strings(receiver, bool(strip), tspec[2]) if tspec[0] == "iter" else o_all_strings(receiver, bool(strip), norm_tspec(tspec))
+        if tspec[0] == "iter":
+            pieces_ = o_iter_strings(receiver, bool(strip), tspec[2])
+            alt = sep.join(str.__str__(w[1]) for w in o_all_strings(receiver, bool(strip), ("many", "tuple", tspec[2])))
+            if got != sep.join(str.__str__(w[1]) for w in pieces_) and got == alt:
+                raise IterAsTuple()
+        else:
+            pieces_ = o_all_strings(receiver, bool(strip), norm_tspec(tspec))
         want = sep.join(str.__str__(w[1]) for w in pieces_)
         return ptok(got), ptok(want), True
     raise ValueError(q)
@@ -876,6 +927,9 @@ def check_tree(ctx, batch, recipe, soup, sc, stream, plan, tree_id):
         for q in plan(n, present):
             try:
                 real, want, ident = run_query(n, q)
+            except IterAsTuple:
+                ctx.count("iter-types:honoured-like-a-tuple")
+                continue
             except RecursionError:
                 raise
             except Exception as ex:  # the real code (or the oracle) raised: report as a violation of the property
@@ -1056,6 +1110,18 @@ def stream_random(ctx, batch, n_trees):
             ctx.count("tree:skipped-large")
             continue
         check_tree(ctx, batch, recipe, soup, sc, "random-trees", random_plan(r, 4), ti)
+        if r.random() < 0.3:
+            # ask, edit, ask again: the answers after the edits must not remember the answers before them
+            recipe3 = {"markup": recipe["markup"], "config": cfg, "ops": list(recipe["ops"]), "warm": len(recipe["ops"])}
+            soup3, sc3 = build(dict(recipe3, warm=None))
+            warm_up(soup3)
+            for k in range(r.choice((1, 2, 3))):
+                op = gen_op(r, soup3, 3000 + k)
+                if apply_op(soup3, sc3, op):
+                    recipe3["ops"].append(list(op))
+            if len(recipe3["ops"]) > recipe3["warm"] and len(all_nodes(soup3)) <= 120:
+                ctx.count("tree:asked-edited-asked")
+                check_tree(ctx, batch, recipe3, soup3, sc3, "ask-edit-ask", random_plan(r, 2), 7_000_000 + ti)
         if r.random() < 0.2:
             tags = [p for n, p in paths(soup) if is_tag(n) and p]
             k = r.random()
@@ -1065,6 +1131,13 @@ def stream_random(ctx, batch, n_trees):
             cl = apply_post(soup, post, sc)
             ctx.count("tree:copy-" + post[0])
             check_tree(ctx, batch, recipe2, cl, sc, "copies", random_plan(r, 2), 6_000_000 + ti)
+            if post[0] in ("copy_soup", "deepcopy_soup"):
+                bad = copied_soup_config_failures(cl, sc)
+                ctx.case(None)
+                if bad and sum(1 for v in ctx.violations if v["stream"] == "copies-config") < 4:
+                    ctx.violation("a copied BeautifulSoup object does not keep the string_containers configuration (new_tag on the copy)",
+                                  case={"op": "copy-config", "recipe": recipe2}, expected=[b[2] for b in bad], observed=[b[:2] for b in bad],
+                                  stream="copies-config")
 
 
 def stream_positions(ctx, batch):
@@ -1209,7 +1282,8 @@ def stream_config(ctx):
     custom = [{}, {"b": c["SubNS"]}, {"script": c["NavigableString"], "p": c["Comment"]},
               dict(e["live_containers"]) | {"i": c["CData"]}]
     params = [("omit", None), ("N", None), ("o5", c["Comment"]), ("m5", {c["Comment"]}), ("m-", ()), ("m0.9", [c["NavigableString"], c["Script"]])]
-    names = sorted(set(ORD_TAGS + list(PROP_CONTAINERS) + list(e["live_containers"]) + ["[document]", "noscript"]))
+    names = sorted(set(ORD_TAGS + list(PROP_CONTAINERS) + list(e["live_containers"]) + ["[document]", "noscript", "SCRIPT", "Script",
+                                                                                          "STYLE", "\u017fcript", "scr\u0131pt", ""]))
     for bcls, prop_dflt in ((HTMLParserTreeBuilder, PROP_CONTAINERS), (TreeBuilder, {})):
         live_dflt = bcls.DEFAULT_STRING_CONTAINERS
         for argname, arg in [("U", "omit"), ("N", None)] + [("D", d) for d in custom]:
@@ -1718,10 +1792,24 @@ def replay(path):
         print("implementation:", strs)
         print("property demands class:", v.get("expected"))
         return 0 if strs and strs[-1][0] == v.get("expected") else 1
-    if c.get("op") == "config":
-        print(json.dumps(c))
-        print("implementation:", v.get("observed"), " property demands:", v.get("expected"), " model:", v.get("model_reply"))
-        return 1
+    if c.get("op") == "copy-config":
+        soup, sc = build(c["recipe"])
+        bad = copied_soup_config_failures(soup, sc)
+        for nm, got, want in bad:
+            print(f"copy.new_tag({nm!r}).interesting_string_types: implementation {got}, property demands {want}")
+        return 1 if bad else 0
+    if c.get("op") in ("config", "interesting", "string_container"):
+        # these streams are deterministic and order-dependent (state leaking between objects shows only in sequence): rerun them
+        from .common import Ctx as _Ctx
+        c2 = _Ctx("C13", "quick", 0)
+        stream_string_container(c2)
+        stream_config(c2)
+        hits = [x for x in c2.violations if not x.get("no_failing_input_found")]
+        same = [x for x in hits if {k: x["case"].get(k) for k in c if k != "line"} == {k: c.get(k) for k in c if k != "line"}]
+        for x in (same or hits)[:3]:
+            print(json.dumps(x["case"]), "| implementation:", x["observed"], "| property demands:", x["expected"])
+        print(f"{len(hits)} failing case(s) in the configuration streams; the recorded case {'fails again' if same else 'does not fail in this run'}")
+        return 1 if hits else 0
     if c.get("op") == "heap":
         w = run_heap_case(None, c)
         if w is None:
